@@ -65,6 +65,7 @@ type Contract struct {
 type GhostStmt struct {
 	Callee string
 	Ord    int
+	AtReturn bool // `ghostcode at return: ...`: executed at every normal return, before the postconditions
 	LHS    *Clause
 	RHS    *Clause
 	Src    string
@@ -306,12 +307,19 @@ func (s *Specs) ParseFile(path, pkgPath string) error {
 				return fmt.Errorf("%s:%d: ghostcode: want 'after call NAME K: LHS := RHS'", d.file, d.line)
 			}
 			hf := strings.Fields(d.rest[:colon])
-			if len(hf) != 4 || hf[0] != "after" || hf[1] != "call" {
-				return fmt.Errorf("%s:%d: ghostcode: want 'after call NAME K: LHS := RHS'", d.file, d.line)
-			}
-			k, err := strconv.Atoi(hf[3])
-			if err != nil {
-				return fmt.Errorf("%s:%d: ghostcode: %v", d.file, d.line, err)
+			atReturn := len(hf) == 2 && hf[0] == "at" && hf[1] == "return"
+			k := 0
+			if atReturn {
+				hf = []string{"at", "return", "", "0"}
+			} else {
+				if len(hf) != 4 || hf[0] != "after" || hf[1] != "call" {
+					return fmt.Errorf("%s:%d: ghostcode: want 'after call NAME K: LHS := RHS' or 'at return: LHS := RHS'", d.file, d.line)
+				}
+				var err error
+				k, err = strconv.Atoi(hf[3])
+				if err != nil {
+					return fmt.Errorf("%s:%d: ghostcode: %v", d.file, d.line, err)
+				}
 			}
 			lhs, err := mk(strings.TrimSpace(d.rest[colon+1 : asg]))
 			if err != nil {
@@ -321,7 +329,7 @@ func (s *Specs) ParseFile(path, pkgPath string) error {
 			if err != nil {
 				return err
 			}
-			cur.Ghost = append(cur.Ghost, &GhostStmt{Callee: hf[2], Ord: k, LHS: lhs, RHS: rhs, Src: d.rest})
+			cur.Ghost = append(cur.Ghost, &GhostStmt{Callee: hf[2], Ord: k, AtReturn: atReturn, LHS: lhs, RHS: rhs, Src: d.rest})
 		case "modifies":
 			if cur == nil {
 				return fmt.Errorf("%s:%d: modifies outside func", d.file, d.line)
